@@ -96,6 +96,13 @@ func genCLI(seed uint64, prop, tier, mode string) *Plan {
 		}
 		if ok && tomlOK(c.Text) {
 			p.Cfgs = append(p.Cfgs, c)
+			// objects on which a named configurable lint gives a verdict
+			for _, t := range c.Targets {
+				t := t
+				if o := pickClass(g, func(e *corpusClassEntry) bool { return inList(e.Conf, t) && e.Kind != KOCSP }); o != nil && g.Chance(0.7) {
+					p.Objects = append(p.Objects, *o)
+				}
+			}
 		}
 	}
 	realNames := func() []string {
